@@ -80,7 +80,7 @@ func init() {
 		Jobs: func(tier string) []Job {
 			jobs := []Job{{Pkg: "root", Func: "verifC15Vacuity", Vacuity: true}}
 			lists := curRun.Natives["lists"].([][]string)
-			hosts := [][2]int64{{2, 1}, {4, 1}, {2, 2}, {1, 1}, {4, 0}}
+			hosts := [][2]int64{{2, 1}, {4, 1}, {2, 2}, {1, 1}, {4, 0}, {102, 1}}
 			if tier == "thorough" {
 				hosts = append(hosts, [2]int64{5, 1}, [2]int64{6, 1}, [2]int64{4, 2}, [2]int64{2, 0})
 			}
@@ -103,9 +103,9 @@ func init() {
 			}
 			e.Ctx["native:cosmeticcount"] = func(i int) int { return len(lists[i]) }
 		},
-		MustReach: []string{"c15.applies", "c15.excepted"},
+		MustReach: []string{"c15.applies", "c15.excepted", "c15.warm"},
 		Bounds: map[string]string{
-			"quick":    "rule lists: every single rule and every ordered pair from a menu of 18 element-hiding rules (generic, one/two domains, negated domain, subdomain, wildcard TLD, multi-level suffix, exceptions with same/different selectors, duplicates) plus 8 triples, parsed by the real parser; hostname of 1,2,4 symbolic bytes over {z,q,.} plus a tail from {'', .com, .co.uk}; the three flags symbolic; GetCosmeticResult's option word fully symbolic",
+			"quick":    "rule lists: every single rule and every ordered pair from a menu of 18 element-hiding rules (generic, one/two domains, negated domain, subdomain, wildcard TLD, multi-level suffix, exceptions with same/different selectors, duplicates) plus 8 triples, parsed by the real parser; hostname of 1,2,4 symbolic bytes over {z,q,.} plus a tail from {'', .com, .co.uk}; the three flags symbolic; GetCosmeticResult's option word fully symbolic; one variant per list in which the engine first answers another query (symbolic hostname and flags) whose result the caller overwrites",
 			"thorough": "plus systematic triples and hostnames up to 6 symbolic bytes",
 		},
 		Outside:     []string{"CSS and JS rule types (not implemented upstream)", "hostnames beyond the bound", "the storage scanner (stubbed as perfect)"},
